@@ -31,11 +31,14 @@ EXTENDS Extensions, SchemaS1, Json
 QueryOf(req) ==
   CASE req = "success"    -> "{ a o { x } }"
     [] req = "fielderr"   -> "{ b o { y } }"
+    [] req = "nullerr"    -> "{ b o { w } }"
     [] req = "syntax"     -> "{ a "
     [] req = "validation" -> "{ zz }"
     [] req = "variable"   -> "query($v: Int!) { f(y: $v) }"
 OutsOf(req) ==
-  IF req = "fielderr" THEN << [t |-> "O", f |-> "y", src |-> "*", o |-> [k |-> "err"]] >> ELSE << >>
+  CASE req = "fielderr" -> << [t |-> "O", f |-> "y", src |-> "*", o |-> [k |-> "err"]] >>
+    [] req = "nullerr" -> << [t |-> "O", f |-> "w", src |-> "*", o |-> [k |-> "nil"]] >>
+    [] OTHER -> << >>
 
 \* ---- projection of a returned state onto the observables
 EvTok(e) == e.h \o (IF e.o = "" THEN "" ELSE "=" \o e.o) \o (IF e.p = "" THEN "" ELSE "!" \o e.p)
